@@ -186,6 +186,11 @@ def make_trace(tid, rng, nops=25, **opt):
     return {"tid": tid, "fmt": "qcow2", "img": timg, "sizeB": size_b, "sector": 512, "geo": geo, "events": rec.events}
 
 
+def trace_for(tid, r, thorough):
+    """The history behind trace `tid` (run and --replay build the same one)."""
+    return make_trace(tid, r, 40 if thorough else 25, many=diskprop.many_of(tid))
+
+
 def _attrs(img, prof):
     return {"cb": prof["cb"], "ext": img["ext"], "datafile": img["datafile"], "version": prof.get("version", 3), "back": img["back"] >= 0}
 
@@ -206,7 +211,7 @@ def run(ctx):
     diskprop.replay_states(ctx, "qcow2", sts, STD_T if thorough else STD_Q, build, attrs_of=_attrs, cap=48 if thorough else 28)
     sts = diskprop.dump_states(ctx, "Qcow2", "Qcow2ext_img.cfg")
     diskprop.replay_states(ctx, "qcow2", sts, EXT_T if thorough else EXT_Q, build, attrs_of=_attrs, cap=48 if thorough else 28)
-    diskprop.traces(ctx, "qcow2", lambda tid, r: make_trace(tid, r, 40 if thorough else 25, many=("mid" if tid % 8 == 0 else None)), 320 if thorough else 64,
+    diskprop.traces(ctx, "qcow2", lambda tid, r: trace_for(tid, r, thorough), 320 if thorough else 64,
                     "TraceDisk", "TraceDisk.cfg", lambda t: {"format": "qcow2", "ext": t["img"]["ext"], "datafile": t["img"]["datafile"]})
 
 
@@ -219,7 +224,7 @@ def replay(ctx, body):
         return not r.violated
     if d.get("kind") in ("trace", "trace-gen"):
         tid = d.get("tid") or d["trace"]["tid"]
-        t = make_trace(tid, random.Random(body["seed"] * 9176 + tid), 40 if body.get("tier") == "thorough" else 25)
+        t = trace_for(tid, random.Random(body["seed"] * 9176 + tid), body.get("tier") == "thorough")
         v, _ = tracecheck.validate("TraceDisk", "TraceDisk.cfg", [t])
         print(v)
         return v[tid][0] == "accept"
